@@ -1,10 +1,11 @@
 #!/bin/bash
 # Regenerate SA/Gen and rebuild the harness from /repo itself (after a run against another tree).
-cd /verif && ./.build/extract -repo /repo -out lean/SA/Gen >/dev/null; rm -f lean/SA/Gen/FAILED.json
+export V=${VERIF_HOME:-/verif}
+cd $V && ./.build/extract -repo /repo -out lean/SA/Gen >/dev/null; rm -f lean/SA/Gen/FAILED.json
 python3 - <<'PY'
 import sys, importlib.machinery, importlib.util
 sys.argv = ['check']
-loader = importlib.machinery.SourceFileLoader('check', '/verif/check'); spec = importlib.util.spec_from_loader('check', loader)
+import os; V = os.environ.get('VERIF_HOME', '/verif'); loader = importlib.machinery.SourceFileLoader('check', V + '/check'); spec = importlib.util.spec_from_loader('check', loader)
 m = importlib.util.module_from_spec(spec); loader.exec_module(m)
 rc, out, exe = m.build_harness(); print("harness rebuilt from /repo rc=%d" % rc)
 PY
